@@ -68,17 +68,21 @@ static int loop_start(m_ctx_t *c, int max_events) {
         c->state = M_CTX_LOOPING;
         c->quit = false;
         c->quit_code = 0;
-        
+
+        /*
+         * Start the tick source right now, before any user callback can run:
+         * from here on (context is LOOPING) m_ctx_set_tick() manages the poll by itself,
+         * eg: when called by a hook during the evaluation below; the tick must not be added twice.
+         */
+        if (c->tick.src) {
+            poll_set_new_evt(&c->ppriv, c->tick.src, ADD);
+        }
+
         /* Eventually start any IDLE module */
         m_iterate(c->modules, evaluate_module, NULL);
 
         /* Publish loop started system message */
         tell_system_pubsub_msg(NULL, c, NULL, M_PS_CTX_STARTED);
-        
-        /* Start the tick source right now! */
-        if (c->tick.src) {
-            poll_set_new_evt(&c->ppriv, c->tick.src, ADD);
-        }
     }
     return ret;
 }
